@@ -264,6 +264,8 @@ def normalise_loops(stmts: list, plumbing=False) -> list:
     return out
 
 
+_MUTATORS = ("append", "extend", "remove", "insert", "pop", "clear", "sort", "reverse", "update", "add", "discard",
+             "setdefault", "popitem", "fill", "resize")
 _LOG_METHODS = ("debug", "info", "warning", "error", "exception", "critical", "log")
 
 
@@ -845,6 +847,9 @@ class Tr:
         return out
 
     def stmt(self, s) -> list:  # noqa: C901, PLR0911, PLR0912
+        if self.orch and isinstance(s, ast.FunctionDef) and self.helpers.get(s.name) is not s:
+            # a def inside a block is not collected as a helper: its calls would silently become externals
+            raise TranslationError(f"nested def `{s.name}` inside a block")
         if _is_docstring(s) or isinstance(s, (ast.Pass, ast.FunctionDef)):
             return []
         if self.is_log_call(s):
@@ -952,6 +957,11 @@ class Tr:
             return [("raise", exc.id)]
         if self.orch and isinstance(s, ast.Expr) and isinstance(s.value, ast.Call):
             # a call whose result is discarded: an EFFECT; what the external returns is recorded in the trace
+            f = s.value.func
+            if isinstance(f, ast.Attribute) and f.attr in _MUTATORS and not (isinstance(f.value, ast.Name)
+                                                                              and f.value.id not in self.bound):
+                # a container method that changes its receiver in place, in a form the value semantics cannot follow
+                raise TranslationError(f"in-place `{f.attr}` on something that is not a plain local list: {_dump(s)}")
             return [("yield", self.expr(s.value))]
         raise TranslationError(f"unsupported statement: {_dump(s)}")
 
